@@ -21,6 +21,8 @@ func checkC05(p *load.Program, r *kit.Report) {
 	r.Rule("TRIGGER-RESTARTS", "TriggerBlockSynchronize leaves the work to the registered round only behind IsComplete() == false of its thread", 1)
 	checkTriggerRestarts(p, r, "TRIGGER-RESTARTS")
 	importRules(p, r, "C16", "a request that is abandoned while a node is delivering the block, a download counted complete without having processed the requested block, or a registry that loses running downloads, leaves best-chain blocks unprocessed", 3, nil, "GIVE-UP")
+	importRules(p, r, "C04", "a download that reports success lets synchronizeBlocks move on to the next height: every error of handleBlock's calls — the write of the processed marker above all — must be returned, or the block is counted as done without the marker the walk back stops at and is never requested again", 1,
+		func(o *kit.Obligation) bool { return strings.HasPrefix(o.Construct, "BlockDownloader.handleBlock/") }, "ERR-DISPOSITION")
 	importRules(p, r, "C04", "the processed marker (AppendBlockTxIDs) is what the walk back stops at: it must be written last, only for a fully processed block", 2, nil, "ORDER")
 	importRules(p, r, "C09", "synchronizeBlocks checks the pending block with headers.Hash(height): a refused tip height ends the round with the request still in flight (the block is then requested and processed twice)", 6, nil, "TIP-BOUND")
 	importRules(p, r, "C09", "synchronizeBlocks walks back from the tip with headers.PreviousHash: a `none` for a held predecessor ends every round without a request", 2,
